@@ -1,3 +1,4 @@
+; sig s_cat : Str Str -> Str
 ; first_idx s c from : least index i >= from with s[i] == c, or -1
 ; sig first_idx : Str BV8 Int -> Int
 (declare-fun first_idx (Str (_ BitVec 8) Int) Int)
@@ -15,3 +16,11 @@
          (= (first_idx (s_sub s a (s_len s)) c 0)
             (ite (= (first_idx s c a) (- 1)) (- 1) (- (first_idx s c a) a))))
      :pattern ((first_idx (s_sub s a (s_len s)) c 0)))))
+; has_prefix s p : p is a prefix of s
+; sig has_prefix : Str Str -> Bool
+(define-fun has_prefix ((s Str) (p Str)) Bool
+  (and (<= (s_len p) (s_len s)) (forall ((i Int)) (! (=> (and (<= 0 i) (< i (s_len p))) (= (s_at s i) (s_at p i))) :pattern ((s_at p i))))))
+; itoa n : canonical decimal text of n (uninterpreted beyond being non-empty)
+; sig itoa : Int -> Str
+(declare-fun itoa (Int) Str)
+(assert (forall ((n Int)) (! (>= (s_len (itoa n)) 1) :pattern ((itoa n)))))
